@@ -13,6 +13,7 @@ C18 - runs are reproducible and side-effect free whatever the threading (DESIGN.
 """
 from __future__ import annotations
 
+import copy
 import itertools
 import json
 import os
@@ -325,6 +326,9 @@ def pipelines():
                               ("validation", P.CROSS)])
     out["B1"] = P.name_steps([("matching_cost", P.mc("zncc", 3, 2, "g")), ("disparity", P.WTA), ("refinement", P.VFIT),
                               ("validation", P.CROSS)])
+    # P0's steps on a pair without any texture (every cost curve is the same: constant ambiguity, ties everywhere):
+    # degenerate statistics must be as repeatable as ordinary ones
+    out["F0"] = copy.deepcopy(out["P0"])
     return out
 
 
@@ -342,6 +346,9 @@ def inputs(seed=0, ny=20, nx=26, variant="mask"):
     msk = np.zeros((ny, nx), dtype=np.int16)
     msk[5, 7] = 2
     msk[11, 3] = 1
+    if variant == "flat":
+        flat = np.full((ny, nx), 7.0, dtype=np.float32)
+        return D.image(flat, disp=(-4, 4)), D.image(flat.copy(), disp=None)
     if variant == "multi":
         l2, r2 = D.stereo_pair(ny, nx, shift=2, seed=seed + 8)
         return (D.image(np.stack([left, l2]), disp=(-4, 4), msk=msk, bands=["r", "g"]),
@@ -363,7 +370,7 @@ def inputs(seed=0, ny=20, nx=26, variant="mask"):
 
 
 def variant_of(name):
-    return "multi" if name.startswith("B") else "mask"
+    return "multi" if name.startswith("B") else ("flat" if name.startswith("F") else "mask")
 
 
 def run_pipeline(name, machine=None, do_check=True, shared=None, variant=None, cfgs=None):
@@ -560,7 +567,7 @@ def spaces(tier, seed):
     from mc.engine import core  # pylint: disable=import-outside-toplevel
 
     core.setup_env()
-    names = ["P0", "P1", "P2", "Q1", "Q2", "X0", "X1", "X2", "B0", "B1"]
+    names = ["P0", "P1", "P2", "Q1", "Q2", "X0", "X1", "X2", "B0", "B1", "F0"]
     ref = subprocess_digests(names, 1, "workqueue", "True")
     for nme in names:
         if ref[nme]["inputs"] != "|":
@@ -596,6 +603,9 @@ def spaces(tier, seed):
     untouched = [{"kind": "untouched", "pipe": nm, "variant": v} for nm in names[:8] for v in ("mask", "nan")]
     untouched += [{"kind": "untouched", "pipe": nm, "variant": "multi"} for nm in ("B0", "B1")]
     untouched += [{"kind": "untouched", "pipe": nm, "variant": "bare"} for nm in ("P0", "P2", "Q1")]
+    flat = [{"kind": "hist", "P": "F0", "word": list(w), "ref": ref}
+            for w in (["rM1F0"] * 3, ["rM1F0", "rM2Q1", "rM1F0"], ["rM1F0", "rM2P2", "rM1F0", "rM2X0", "rM1F0"],
+                      ["rM2P0", "rM1F0", "rM2Q2", "rM1F0"])]
     samecfg = []
     for P in names:
         for w in ([f"rM1{P}"] * 2, [f"rM1{P}"] * 3, [f"rM1{P}", "rM2" + P, f"rM1{P}"],
@@ -605,6 +615,8 @@ def spaces(tier, seed):
     return [
         {"name": "inputs untouched: every pipeline x input variant (mask / NaN-inf samples without mask / multiband)",
          "level": 1, "cases": untouched, "chunk": 1},
+        {"name": "textureless pair (constant ambiguity, ties everywhere) run repeatedly between other jobs", "level": 1,
+         "cases": flat, "chunk": 1},
         {"name": "repeated runs handing the caller's own checked configuration dictionary to every run", "level": 1,
          "cases": samecfg, "chunk": 2},
         {"name": "histories, each word in a process of its own (other pipelines first, then P)", "level": 1,
